@@ -544,6 +544,7 @@ func genRingOpen() {
 	if len(rows) == 0 {
 		fail("%s: no method opens a key ring read-write any more", ksdir)
 	}
+	sort.Slice(rows, func(i, j int) bool { return rows[i].method < rows[j].method })
 	var b strings.Builder
 	b.WriteString("[")
 	for i, r := range rows {
@@ -553,7 +554,7 @@ func genRingOpen() {
 		fmt.Fprintf(&b, "\n  (%q, %q, %q, %q)", r.file, r.method, r.path, r.shape)
 	}
 	b.WriteString("]")
-	lf.def("rwEntryPoints", "List (String × String × String × String)", b.String(), ksdir+"*.go (not tests): every function that calls OpenKeyRingRW: (file, function, ring path expression, shape); shape `open-first-return-err` = the open is the first action (only `log := …` before it) and is followed by `if err != nil { … return …, err }`")
+	lf.def("rwEntryPoints", "List (String × String × String × String)", b.String(), ksdir+"*.go (not tests): every function that calls OpenKeyRingRW, sorted by name: (file, function, ring path expression, shape); shape `open-first-return-err` = the open is the first action (only `log := …` before it) and is followed by `if err != nil { … return …, err }`")
 	// unexported read-write methods and the exported methods that reach them
 	var reach []string
 	for _, fd := range decls {
